@@ -439,4 +439,22 @@ theorem tie_incrementCountEffects (expired present : Bool) :
 theorem tie_loadCountEffects (present : Bool) : loadCountEffects present = Conc.loadAccesses present := by
   cases present <;> rfl
 
+/-! ### round 5e: where the bytes behind `r.Body` live -/
+
+/-- after `computeBodySignature` `r.Body` is the second reader of `iox.DupReadCloser`, which reads from a `bytes.Buffer`
+DECLARED IN THAT CALL (`var buf bytes.Buffer`, returned as `io.NopCloser(&buf)`): a fresh buffer per request — the model's
+`Own.stepFresh`. The package has no variable besides its five errors: no pool, no buffer reachable from two requests. (A
+pooled buffer — seeded C18-9, the model's `Own.stepPooled` — changes the assignments AND adds a package variable.) -/
+theorem tie_bodyOwnedByRequest : bodyAssignments = ["r.Body, dup = iox.DupReadCloser(r.Body)", "r.Body = dup"]
+    ∧ dupReadCloserLocals = ["var buf bytes.Buffer"]
+    ∧ dupReadCloserReturns = ["io.NopCloser(tee), io.NopCloser(&buf)"]
+    ∧ securityPackageVars = ["ErrInvalidContentType = errors.New", "ErrInvalidHeader = errors.New", "ErrInvalidKey = errors.New",
+        "ErrInvalidPublicKey = errors.New", "ErrInvalidSecret = errors.New"] := by decide
+
+/-- the decrypted body likewise: `decryptBody` hands the handler a reader over a buffer declared in the call; the package's
+only variable is an error -/
+theorem tie_decryptedBodyOwnedByRequest : decryptBodyAssignments = ["r.Body = io.NopCloser(&buf)"]
+    ∧ decryptBodyLocals = ["var content []byte", "var err error", "var buf bytes.Buffer"]
+    ∧ cryptionPackageVars = ["errContentLengthExceeded = errors.New"] := by decide
+
 end GoZero.C18.TieRest
